@@ -17,7 +17,9 @@ TraceNext ==
   /\ l' = l + 1
   /\ LET e == Rec[l]
          exp == Evaluate(e.row)
-     IN /\ IF exp.acc = "leap" THEN (e.out.acc = "no" \/ e.out = exp.alt) ELSE e.out = exp
+     IN /\ IF exp.acc = "leap" THEN (e.out.acc = "no" \/ e.out = exp.alt)
+           \* "parsing ... either fails or yields the instant it denotes": a refusal of a parse row is always allowed
+           ELSE (e.out = exp \/ (e.row.kind = "parse" /\ e.out.acc = "no"))
         /\ row' = e.row /\ out' = e.out
 
 TraceSpec == TraceInit /\ [][TraceNext]_tvars
